@@ -83,7 +83,7 @@ PROPS = {
         parts=[dict(name="memfs-views")],
         trusted=MODEL_TRUST,
         assumptions=["views are records over one shared heap, as `subFS := *vfs` copies them"],
-        not_yet_proved=["sub_sim (a view behaves as the parent on prefixed paths)", "sub_confined in the graph sense (Desc of the view root)"],
+        not_yet_proved=["sub_sim is proved for resolution, Mkdir, Remove and Stat on clean absolute link-free paths (C11_sub_sim_*); for the other calls, relative paths and paths through links it is decided on the implementation by the twin simulation", "sub_confined in the graph sense (Desc of the view root)"],
     ),
     "C14": dict(
         props_files=["Avfs/Props/C14.lean"],
